@@ -92,3 +92,49 @@ Example C17_nonvacuous :
   dec_mul dev RHalfEven (mkdec (10 ^ 5) 5) (mkdec MAXC 0) = Val (mkdec MAXC 0) /\
   id_partial_cmp I128 MAXC (mkdec 15 1) = dec_partial_cmp (mkdec MAXC 0) (mkdec 15 1).
 Proof. vm_compute. repeat split. Qed.
+
+(* ---- the translated source (gen/GenInt.v, gen/GenDec.v): each macro-generated integer-operand form, for every one of the
+   nine integer types and both operand orders (src_di_* / src_id_* dispatch on the type tag), computes what the translated
+   Decimal/Decimal function computes on the integer converted to a Decimal ---- *)
+From FP Require Import GenDec GenInt GenTieIntForms.
+
+Theorem C17_source_add_sub_forms :
+  forall t pf d i, In t int_types -> wf d = true -> - MAXC <= i <= MAXC ->
+    src_di_add t pf d i = g_Add_add pf d (mkdec i 0) /\ src_id_add t pf i d = g_Add_add pf (mkdec i 0) d /\
+    src_di_sub t pf d i = g_Sub_sub pf d (mkdec i 0) /\ src_id_sub t pf i d = g_Sub_sub pf (mkdec i 0) d /\
+    src_di_cadd t pf d i = g_CheckedAdd_checked_add pf d (mkdec i 0) /\ src_id_cadd t pf i d = g_CheckedAdd_checked_add pf (mkdec i 0) d /\
+    src_di_csub t pf d i = g_CheckedSub_checked_sub pf d (mkdec i 0) /\ src_id_csub t pf i d = g_CheckedSub_checked_sub pf (mkdec i 0) d.
+Proof. exact src_addsub_forms. Qed.
+Check C17_source_add_sub_forms :
+  forall t pf d i, In t int_types -> wf d = true -> - MAXC <= i <= MAXC ->
+    src_di_add t pf d i = g_Add_add pf d (mkdec i 0) /\ src_id_add t pf i d = g_Add_add pf (mkdec i 0) d /\
+    src_di_sub t pf d i = g_Sub_sub pf d (mkdec i 0) /\ src_id_sub t pf i d = g_Sub_sub pf (mkdec i 0) d /\
+    src_di_cadd t pf d i = g_CheckedAdd_checked_add pf d (mkdec i 0) /\ src_id_cadd t pf i d = g_CheckedAdd_checked_add pf (mkdec i 0) d /\
+    src_di_csub t pf d i = g_CheckedSub_checked_sub pf d (mkdec i 0) /\ src_id_csub t pf i d = g_CheckedSub_checked_sub pf (mkdec i 0) d.
+Print Assumptions C17_source_add_sub_forms.
+
+Theorem C17_source_div_rem_forms :
+  forall t pf m d i, In t int_types -> wf d = true -> in_range t i = true -> - MAXC <= i <= MAXC ->
+    src_di_div t pf m d i = g_Div_div pf m d (mkdec i 0) /\ src_id_div t pf m i d = g_Div_div pf m (mkdec i 0) d /\
+    src_di_cdiv t pf m d i = g_CheckedDiv_checked_div pf m d (mkdec i 0) /\ src_id_cdiv t pf m i d = g_CheckedDiv_checked_div pf m (mkdec i 0) d /\
+    src_di_rem t pf d i = g_Rem_rem pf d (mkdec i 0) /\ src_id_rem t pf i d = g_Rem_rem pf (mkdec i 0) d /\
+    src_di_crem t pf d i = g_CheckedRem_checked_rem pf d (mkdec i 0) /\ src_id_crem t pf i d = g_CheckedRem_checked_rem pf (mkdec i 0) d.
+Proof. exact src_div_rem_forms. Qed.
+Check C17_source_div_rem_forms :
+  forall t pf m d i, In t int_types -> wf d = true -> in_range t i = true -> - MAXC <= i <= MAXC ->
+    src_di_div t pf m d i = g_Div_div pf m d (mkdec i 0) /\ src_id_div t pf m i d = g_Div_div pf m (mkdec i 0) d /\
+    src_di_cdiv t pf m d i = g_CheckedDiv_checked_div pf m d (mkdec i 0) /\ src_id_cdiv t pf m i d = g_CheckedDiv_checked_div pf m (mkdec i 0) d /\
+    src_di_rem t pf d i = g_Rem_rem pf d (mkdec i 0) /\ src_id_rem t pf i d = g_Rem_rem pf (mkdec i 0) d /\
+    src_di_crem t pf d i = g_CheckedRem_checked_rem pf d (mkdec i 0) /\ src_id_crem t pf i d = g_CheckedRem_checked_rem pf (mkdec i 0) d.
+Print Assumptions C17_source_div_rem_forms.
+
+Theorem C17_source_comparison_forms :
+  forall t pf d i, In t int_types -> wf d = true -> in_range t i = true -> - MAXC <= i <= MAXC ->
+    src_di_pcmp t pf d i = g_PartialOrd_partial_cmp pf d (mkdec i 0) /\
+    src_id_pcmp t pf i d = g_PartialOrd_partial_cmp pf (mkdec i 0) d.
+Proof. exact src_cmp_forms. Qed.
+Check C17_source_comparison_forms :
+  forall t pf d i, In t int_types -> wf d = true -> in_range t i = true -> - MAXC <= i <= MAXC ->
+    src_di_pcmp t pf d i = g_PartialOrd_partial_cmp pf d (mkdec i 0) /\
+    src_id_pcmp t pf i d = g_PartialOrd_partial_cmp pf (mkdec i 0) d.
+Print Assumptions C17_source_comparison_forms.
